@@ -79,8 +79,8 @@ impl SimScheduler {
     }
     shared.borrow_mut().trace_hash = FNV_OFFSET;
     SimScheduler {
-      bt_debug: false,
-      bt_seed: 0,
+      bt_debug: std::env::var("VERIF_STEP_BT").ok().map(|v| v == "all" || v.parse::<u64>().ok() == Some(seed)).unwrap_or(false),
+      bt_seed: seed,
       next: None,
       rng,
       data,
